@@ -535,13 +535,13 @@ Section Decode.
     revert ps' ts; induction ps as [|[b v] ps IH]; intros [|[b' v'] ps'] ts H; cbn [unpairs] in H;
       try (inv H; fail).
     - eauto.
-    - inv H. inv H5. cbn [lin_terms].
+    - inversion H as [|? ? ? ? Hb H']; subst. inversion H' as [|? ? ? ? Hv H'']; subst. cbn [lin_terms].
       destruct (lit_ids t b) as [x|] eqn:Eb; [|discriminate].
       destruct (lit_ids t v) as [y|] eqn:Ev; [|discriminate].
       destruct (lin_terms t ps) as [rest|] eqn:Er; [|discriminate]. intros _.
-      destruct (lit_ids_same _ _ _ H3 Eb) as [x' ->].
-      destruct (lit_ids_same _ _ _ H4 Ev) as [y' ->].
-      destruct (IH ps' rest H6 eq_refl) as [r' ->]. eauto.
+      destruct (lit_ids_same _ _ _ Hb Eb) as [x' ->].
+      destruct (lit_ids_same _ _ _ Hv Ev) as [y' ->].
+      destruct (IH ps' rest H'' eq_refl) as [r' ->]. eauto.
   Qed.
 
   Lemma find_key_some_len {A B} k keys (vals : list A) (vals' : list B) v :
